@@ -1,0 +1,9 @@
+//go:build !verif
+// +build !verif
+
+package stanza
+
+// Verification hooks are compiled out unless the "verif" build tag is set.
+const verifEnabled = false
+
+func vpoint(name string, kv ...interface{}) {}
